@@ -152,9 +152,11 @@ func init() {
 		l.p("inductive FsCall where")
 		l.p("  | statDat          -- os.Stat(fn)")
 		l.p("  | renameDatToBak   -- os.Rename(fn, bFn)")
-		l.p("  | writeDat         -- ioutil.WriteFile(fn, data)")
-		l.p("  | writeOther       -- a WriteFile to some other name (e.g. a temp file)")
-		l.p("  | renameOtherToDat -- os.Rename(x, fn)")
+		l.p("  | writeDat         -- ioutil.WriteFile(fn, data): rewrite in place")
+		l.p("  | writeTmp         -- ioutil.WriteFile(tmpFn, data)")
+		l.p("  | removeBak        -- os.Remove(bFn)")
+		l.p("  | linkDatToBak     -- os.Link(fn, bFn)")
+		l.p("  | renameTmpToDat   -- os.Rename(tmpFn, fn)")
 		l.p("  | other")
 		l.p("deriving DecidableEq, Repr")
 		var calls []string
@@ -183,18 +185,33 @@ func init() {
 					switch {
 					case arg(0) == "fn" && arg(1) == "bFn":
 						calls = append(calls, ".renameDatToBak")
-					case arg(1) == "fn":
-						calls = append(calls, ".renameOtherToDat")
+					case arg(0) == "tmpFn" && arg(1) == "fn":
+						calls = append(calls, ".renameTmpToDat")
 					default:
 						calls = append(calls, ".other")
 					}
-				case "ioutil.WriteFile", "os.WriteFile":
-					if arg(0) == "fn" {
-						calls = append(calls, ".writeDat")
+				case "os.Link":
+					if arg(0) == "fn" && arg(1) == "bFn" {
+						calls = append(calls, ".linkDatToBak")
 					} else {
-						calls = append(calls, ".writeOther")
+						calls = append(calls, ".other")
 					}
-				case "os.Remove", "os.Create", "os.OpenFile":
+				case "ioutil.WriteFile", "os.WriteFile":
+					switch arg(0) {
+					case "fn":
+						calls = append(calls, ".writeDat")
+					case "tmpFn":
+						calls = append(calls, ".writeTmp")
+					default:
+						calls = append(calls, ".other")
+					}
+				case "os.Remove":
+					if arg(0) == "bFn" {
+						calls = append(calls, ".removeBak")
+					} else {
+						calls = append(calls, ".other")
+					}
+				case "os.Create", "os.OpenFile":
 					calls = append(calls, ".other")
 				}
 				return true
@@ -231,8 +248,38 @@ func init() {
 		if !has(sp2, "Shutdown") {
 			problem("pipe.Service.Shutdown no longer calls savePipes")
 		}
+		// persister.savePipes: WriteFile(fn) in place, or WriteFile(tmpFn) + Rename(tmpFn, fn)
+		inPlace, viaTmp, renames := false, false, false
+		if fd := funcDecl(pf, "persister", "savePipes"); fd == nil {
+			problem("pipe.persister.savePipes not found")
+		} else {
+			ast.Inspect(fd.Body, func(n ast.Node) bool {
+				if ce, ok := n.(*ast.CallExpr); ok {
+					a0, a1 := "", ""
+					if len(ce.Args) > 0 {
+						a0 = c07Sel(ce.Args[0])
+					}
+					if len(ce.Args) > 1 {
+						a1 = c07Sel(ce.Args[1])
+					}
+					switch c07Sel(ce.Fun) {
+					case "ioutil.WriteFile", "os.WriteFile":
+						inPlace = inPlace || a0 == "fn"
+						viaTmp = viaTmp || a0 == "tmpFn"
+					case "os.Rename":
+						renames = renames || (a0 == "tmpFn" && a1 == "fn")
+					}
+				}
+				return true
+			})
+			if !inPlace && !(viaTmp && renames) {
+				problem("persister.savePipes neither rewrites the file in place nor writes a temp file and renames it")
+			}
+		}
 		l.p("")
-		l.p("/-- functions of pkg/pipe that call `savePipes` (the registry file is written only there) -/")
+		l.p("/-- `persister.savePipes` writes `pipes.dat.tmp` and renames it over `pipes.dat` (false: rewrites `pipes.dat` in place) -/")
+		l.p("def savePipesViaTmpRename : Bool := %s", leanBool(viaTmp && renames && !inPlace))
+		l.p("/-- functions of pkg/pipe that call `savePipes` -/")
 		l.p("def savePipesCallers : List String := %s", q(sp2))
 		l.p("def pipeDefsSavedOnCreate : Bool := %s", leanBool(has(sp2, "CreatePipe")))
 		l.p("def pipeDefsSavedOnDelete : Bool := %s", leanBool(has(sp2, "DeletePipe")))
